@@ -6,7 +6,9 @@ import HickoryVerif.Model.Multiplexer
 Line protocol of C16.
 
 UDP (stateless, one line per query):
-`udp <timeout> <retry_interval> <retry_floor> <max_retries> <server> <id> <case01> <questions> { | <event>* }*`
+`udp <timeout> <retry_interval> <retry_floor> <max_retries> <server> <id> <case01>[n|o|m|f] <questions> { | <event>* }*`
+* case01    case randomisation, followed by how the harness builds the request (ignored by the model:
+            the code reads `options().case_randomization` whatever the constructor)
 * addr      `4:<ip as decimal>:<port>` / `6:<ip as decimal>:<port>`
 * questions `-` or `name/type/class,…` (name token of Drv/Proto)
 * event     `D;<delay>;<src addr>;<parses01>;<response01>;<id>;<questions>;<- or =rawhex>` or `E;<delay>`
@@ -74,7 +76,7 @@ def handleUdp (toks : List String) : Option String :=
   match splitBar toks with
   | [timeout, interval, floor, maxr, server, id, cr, qs] :: scripts => do
     let timeout ← timeout.toNat?; let interval ← interval.toNat?; let floor ← floor.toNat?; let maxr ← maxr.toNat?
-    let server ← parseAddr server; let id ← id.toNat?; let cr ← parseBool cr; let qs ← parseQuestions qs
+    let server ← parseAddr server; let id ← id.toNat?; let cr ← parseBool (String.ofList (cr.toList.take 1)); let qs ← parseQuestions qs
     let c : Config := { timeout := timeout, interval := retryInterval interval floor, maxRetries := maxr }
     let rq : Request := { server := server, id := id, caseRand := cr, questions := qs }
     let ss ← scripts.mapM fun s => s.mapM parseEvent
